@@ -226,7 +226,9 @@ def lr_group(rng, gi, cfg=None, pure=False):
     wrapped = rng.random() < 0.35
     off = 1 if wrapped else 0          # rule index of tower level L is off + L
     ops = [[PLUS, MINUS], [STAR_], [94]]
-    nrules = off + height
+    shared = rng.random() < 0.5        # an operand RULE used both inside the recursive alternatives and after the tower
+    D = off + height + 1
+    nrules = off + height + (1 if shared else 0)
     lr = []
     pending_helpers = []
     use_state = (not pure) and rng.random() < 0.5
@@ -243,6 +245,8 @@ def lr_group(rng, gi, cfg=None, pure=False):
     def operand(level):
         """non-left-recursive, non-nullable operand"""
         c = rng.random()
+        if shared and rng.random() < 0.45:
+            return g.ref(D)
         if level < height and c < 0.6:
             return g.ref(off + level + 1)
         if c < 0.85:
@@ -268,7 +272,7 @@ def lr_group(rng, gi, cfg=None, pure=False):
         tail = [g.label(g.ref(2))]
         for _ in range(rng.randint(1, 2)):
             tail.append(g.lit([rng.choice([PLUS, MINUS, STAR_])]))
-            tail.append(g.ref(off + rng.randint(1, height)) if rng.random() < 0.5 else leafop())
+            tail.append(g.ref(D) if shared and rng.random() < 0.6 else (g.ref(off + rng.randint(1, height)) if rng.random() < 0.5 else leafop()))
         if rng.random() < 0.5:
             tail.append(g.lit([120]))
         roots.append(g.action(g.seq(tail)) if rng.random() < 0.5 else g.seq(tail))
@@ -296,6 +300,9 @@ def lr_group(rng, gi, cfg=None, pure=False):
             alts.append(b)
         roots.append(g.choice(alts))
         lr.append(k)
+    if shared:
+        roots.append(g.action(g.lit([NN]) if rng.random() < 0.7 else g.un("plus", g.lit([NN])), err=use_err and rng.random() < 0.3))
+        lr.append(0)
     for idx, body in pending_helpers:
         if rng.random() < 0.4:      # the other rule of the cycle has a base alternative of its own
             body = g.choice([body, g.action(g.lit([rng.choice([LP, 121])]))])
